@@ -1,23 +1,43 @@
 ---------------------------- MODULE History_MC ----------------------------
 (* Bounded instance of History: the alphabet the harness builds with netgen.
-   convA / convB   one convolution, different weights: nothing value keyed
+   convA           one convolution: nothing value keyed
    meanA / meanB   MEAN over 8x4 and 4x8: the rewrite to a depthwise convolution synthesises an
                    all-ones kernel keyed by its 32 values and a zero bias keyed by its 8 values
    tanhA / tanhB   TANH alone / behind a convolution, equal input quantisation: equal LUT contents
-   x@u55           the same model compiled by main() with --accelerator-config ethos-u55-128
    hcA             a branching network on which the hill-climb allocator has to search (draws from random)
-   convert / convert_bytes have fixed options (ethos-u65-256), so only main() has the @u55 letters. *)
+   padNC           a convolution followed by a PAD of batch and channels: split_pad_to_sub_pad rewrites the
+                   paddings constant of the input network in place
+   x@u55           the same model compiled by main() with --accelerator-config ethos-u55-128
+   x+dbg           the same model compiled by main() with --enable-debug-db --verbose-performance: two more
+                   files are written, <net>_debug.xml from the process-wide DebugDatabase tables
+   convert / convert_bytes have fixed options (ethos-u65-256), so only main() has the @ and + letters.
+   convert_bytes receives a bytearray it never sees again (container "ba"); for padNC it receives the
+   bytearray the caller keeps ("shared"), a writable memoryview of it ("mvrw") and a read-only
+   memoryview ("mvro"); padNC reaches the file-reading entry points through main() only. *)
 EXTENDS History
 
-Default == {"convA", "convB", "meanA", "meanB", "tanhA", "tanhB", "hcA"}
+Default == {"convA", "meanA", "meanB", "tanhA", "tanhB", "hcA", "padNC"}
 Other == {"convA@u55", "meanA@u55", "tanhA@u55"}
-MCLetters == {[e |-> e, mo |-> mo] : e \in Entries, mo \in Default} \cup {[e |-> "main", mo |-> mo] : mo \in Other}
+Debug == {"convA+dbg"}
+AllMO == Default \cup Other \cup Debug
+MCLetters == {[e |-> "main", mo |-> mo, c |-> "file"] : mo \in Default}
+        \cup {[e |-> "convert", mo |-> mo, c |-> "file"] : mo \in Default \ {"padNC"}}
+        \cup {[e |-> "convert_bytes", mo |-> mo, c |-> "ba"] : mo \in Default \ {"padNC"}}
+        \cup {[e |-> "convert_bytes", mo |-> "padNC", c |-> c] : c \in {"shared", "mvrw", "mvro"}}
+        \cup {[e |-> "main", mo |-> mo, c |-> "file"] : mo \in Other \cup Debug}
 
-MCVK == [mo \in Default \cup Other |->
+MCVK == [mo \in AllMO |->
            CASE mo \in {"meanA", "meanB", "meanA@u55"} -> {"ones32", "zeros8"}
              [] mo \in {"tanhA", "tanhB", "tanhA@u55"} -> {"tanh_s005"}
              [] OTHER -> {}]
-MCWK == [mo \in Default \cup Other |->
+MCWK == [mo \in AllMO |->
            IF mo \in {"meanA", "meanB", "meanA@u55"} THEN {"dw/8/ones32"} ELSE {}]
-MCAcc == [mo \in Default \cup Other |-> IF mo \in Other THEN "u55-128" ELSE "u65-256"]
+MCAcc == [mo \in AllMO |-> IF mo \in Other THEN "u55-128" ELSE "u65-256"]
+MCOpt == [mo \in AllMO |-> IF mo \in Debug THEN {"ddb"} ELSE {}]
+MCMdl == [mo \in AllMO |->
+           CASE mo \in {"convA", "convA@u55", "convA+dbg"} -> "convA"
+             [] mo \in {"meanA", "meanA@u55"} -> "meanA"
+             [] mo \in {"tanhA", "tanhA@u55"} -> "tanhA"
+             [] OTHER -> mo]
+MCInPlace == [mo \in AllMO |-> mo = "padNC"]
 =============================================================================
